@@ -9,7 +9,7 @@ import z3
 
 from pyvc.core import Undecided
 from pyvc.interp import LoopSpec, FieldSpec
-from pyvc.values import Sym, Obj, SList, SSet, SMap, VList, StrSort
+from pyvc.values import Sym, Obj, SList, SSet, SMap, VList, StrSort, Native
 from pyvc import ops
 
 from placement.objects import allocation_candidate as ac
@@ -904,4 +904,157 @@ SP_LOOPS = {
 
 SP_HAVOC_TYPES = {
     (SQ, 'alloc_requests'): ('list', ('obj', AREQ)),
+}
+
+
+# --------------------------------------------------------------------------
+# mappings of the consolidated request: per suffix the union of the groups'
+# provider sets.  defaultdict(set) as a set of (suffix, uuid) pairs.
+PAIR = ('tuple', ('str', 'str'))
+
+
+class PairSetDict(Native):
+    """collections.defaultdict(set) keyed by str with str members, as the
+    relation {(key, member)}; d[k] is a view whose add / update rewrite the
+    relation (the views are never kept)"""
+
+    def __init__(self, I, rel=None):
+        from pyvc.values import sort_of
+        self.rel = rel if rel is not None else \
+            z3.K(sort_of(PAIR), z3.BoolVal(False))
+
+    def havoc(self, I, nm):
+        from pyvc.values import sort_of
+        return PairSetDict(I, z3.Const(I.ex.fresh_name(nm + '.rel'),
+                                       z3.ArraySort(sort_of(PAIR),
+                                                    z3.BoolSort())))
+
+    def getitem(self, I, k):
+        return _PairSetView(self, k)
+
+    def truth(self, I):
+        # a defaultdict is truthy iff it has a key; keys come into being
+        # together with their first member here (update / add only)
+        return I._nonempty(self.rel, PAIR, 'pairs')
+
+
+class _PairSetView(Native):
+    def __init__(self, d, k):
+        self.d, self.k = d, k
+
+    def getattr(self, I, name):
+        from pyvc.values import BoundMethod
+        if name in ('update', 'add'):
+            return BoundMethod(self, _PairSetOp(name))
+        raise Undecided('set method %s of a defaultdict(set) entry' % name)
+
+
+class _PairSetOp(Native):
+    def __init__(self, name):
+        self.name = name
+
+    def call(self, I, args, kwargs):
+        from pyvc.values import sort_of
+        from pyvc.ops import to_term
+        view, arg = args[0], args[1]
+        d = view.d
+        ps = sort_of(PAIR)
+        kt = to_term(view.k, 'str')
+        if self.name == 'add':
+            d.rel = z3.Store(d.rel, ps.mk(kt, to_term(arg, 'str')),
+                             z3.BoolVal(True))
+            return None
+        if isinstance(arg, Sym) and arg.ty == ('set', 'str'):
+            arg = I.coll_from_id(arg.t, arg.ty)
+        if not isinstance(arg, SSet):
+            raise Undecided('update(%r)' % (arg,))
+        new = z3.Const(I.ex.fresh_name('pairs'), d.rel.sort())
+        s, u = z3.Consts('s!psu u!psu', StrSort)
+        I.ex.hyp(ops.forall([s, u], z3.Select(new, ps.mk(s, u)) == z3.Or(
+            z3.Select(d.rel, ps.mk(s, u)),
+            z3.And(s == kt, z3.Select(arg.arr, u))),
+            patterns=[z3.Select(new, ps.mk(s, u))]))
+        d.rel = new
+        return None
+
+
+def union_fn(I, areqs):
+    """ghost spec function U(j, s, u): (s, u) is in the mappings of one of the
+    first j requests (defined by recursion on j)"""
+    g = I.ghost
+    if 'map.U' in g:
+        return g['map.U']
+    U = z3.Function(I.ex.fresh_name('U'), z3.IntSort(), StrSort, StrSort,
+                    z3.BoolSort())
+    j = z3.Int('j!mu')
+    s, u = z3.Consts('s!mu u!mu', StrSort)
+    I.ex.hyp(ops.forall([s, u], z3.Not(U(0, s, u)), patterns=[U(0, s, u)]))
+    I.ex.hyp(ops.forall([j, s, u], z3.Implies(
+        z3.And(j >= 0, j < areqs.len),
+        U(j + 1, s, u) == z3.Or(U(j, s, u), in_mapping(I, z3.Select(areqs.arr, j), s, u))),
+        patterns=[U(j + 1, s, u)]))
+    g['map.U'] = U
+    return U
+
+
+def in_mapping(I, a, s, u):
+    """u is a member of mappings[s] of request a"""
+    mid = z3.Select(I.fld(AREQ, 'mappings'), a)
+    mdom, mval = I.coll_fns(('map', 'str', ('set', 'str')))
+    members = I.coll_fns(('set', 'str'))[0]
+    return z3.And(z3.Select(mdom(mid), s),
+                  z3.Select(members(z3.Select(mval(mid), s)), u))
+
+
+def _rel_is(I, d, f):
+    from pyvc.values import sort_of
+    ps = sort_of(PAIR)
+    s, u = z3.Consts('s!mi u!mi', StrSort)
+    return ops.forall([s, u], z3.Select(d.rel, ps.mk(s, u)) == f(s, u),
+                      patterns=[z3.Select(d.rel, ps.mk(s, u))])
+
+
+def map_entry(I, frame, seq):
+    I.ghost.setdefault('map.areqs', frame.locals['areqs'])
+
+
+def map_outer_inv(I, frame, i, seq):
+    d = frame.locals['mappings']
+    U = union_fn(I, I.ghost['map.areqs'])
+    I.ghost['map.outer_i'] = i
+    return [_rel_is(I, d, lambda s, u: U(i, s, u))]
+
+
+def map_arr_inv(I, frame, i, seq):
+    d = frame.locals['mappings']
+    U = union_fn(I, I.ghost['map.areqs'])
+    return [_rel_is(I, d, lambda s, u: U(I.ghost['map.outer_i'], s, u))]
+
+
+def map_items_inv(I, frame, i, seq):
+    """after the first i entries of areq.mappings (in enumeration order)"""
+    d = frame.locals['mappings']
+    areqs = I.ghost['map.areqs']
+    U = union_fn(I, areqs)
+    j = I.ghost['map.outer_i']
+    a = z3.Select(areqs.arr, j)
+    idx = seq.idx if hasattr(seq, 'idx') else None
+    if idx is None:
+        raise Undecided('items of areq.mappings are not an enumeration')
+    return [_rel_is(I, d, lambda s, u: z3.Or(
+        U(j, s, u), z3.And(idx(s) < i, in_mapping(I, a, s, u))))]
+
+
+_MAP_MOD = (('AllocationRequestResource', 'amount'),)
+MAP_LOOPS = {
+    (CQ, 1): LoopSpec(invariant=map_outer_inv, on_entry=map_entry,
+                      name='C02.cons.map.requests',
+                      keep=('areqs', 'rw_ctx', 'anchor_rp_uuid'),
+                      modifies_fields=_MAP_MOD),
+    (CQ, 2): LoopSpec(invariant=map_arr_inv, name='C02.cons.map.resources',
+                      keep=('areqs', 'rw_ctx', 'anchor_rp_uuid', 'areq'),
+                      modifies_fields=_MAP_MOD),
+    (CQ, 3): LoopSpec(invariant=map_items_inv, name='C02.cons.map.items',
+                      keep=('areqs', 'rw_ctx', 'anchor_rp_uuid', 'areq',
+                            'arrs_by_rp_rc')),
 }
